@@ -17,12 +17,12 @@ def parseInt (s : String) : Option Int := s.toInt?
 
 def parseOptInt (s : String) : Option (Option Int) := if s = "nil" then some none else (s.toInt?).map some
 
-/-- `n` balance entries `<zts> <amount>` -/
-def parseBal : Nat → List String → Option (List (Bytes × Int) × List String)
+/-- `n` balance entries `<zts> <amount>`; the amount `nil` is a nil pointer -/
+def parseBal : Nat → List String → Option (List (Bytes × Option Int) × List String)
   | 0, rest => some ([], rest)
   | n + 1, z :: a :: rest => do
     let z ← ofHex z
-    let a ← parseInt a
+    let a ← parseOptInt a
     let (l, rest') ← parseBal n rest
     pure ((z, a) :: l, rest')
   | _, _ => none
@@ -41,8 +41,8 @@ def parseTokens : Nat → List String → Option (List Token × List String)
   | 0, rest => some ([], rest)
   | n + 1, z :: t :: m :: rest => do
     let z ← ofHex z
-    let t ← parseInt t
-    let m ← parseInt m
+    let t ← parseInt t   -- a nil TotalSupply is outside the model (the validator dereferences it): unparsable on purpose
+    let m ← parseOptInt m
     let (l, rest') ← parseTokens n rest
     pure (⟨z, t, m⟩ :: l, rest')
   | _, _ => none
